@@ -29,7 +29,7 @@ TRUSTED = ['primitive semantics of Queue / socket / Barrier as stated for C09',
            'module\'s namespace (harness-side, no repository hook) and by wrapping Client.bidding_phase']
 ASSUMPTIONS = ['in-memory network instead of TCP', 'PYTHONHASHSEED pinned (RandomPlay iterates a set)']
 REQUIRED_COUNTERS = {t: ['lockstep_boards', 'lockstep_refused_plays', 'observer_is_dummy', 'bundled_sessions', 'bundled_boards',
-                         'systems_bundled', 'systems_random_legal', 'passed_out_boards_net']
+                         'systems_bundled', 'systems_random_legal', 'systems_pass_then_play', 'systems_mixed', 'passed_out_boards_net']
                      for t in ('quick', 'thorough')}
 
 
@@ -134,6 +134,18 @@ def make_systems(kind, seed):
         return WeakBid(), RandomPlay()
     if kind == 'always_pass':
         return AlwaysPass(), RandomPlay()
+    if kind == 'pass_then_play':
+        # every seat passes the first board and bids on the later ones: a passed-out board FOLLOWED by a played board
+        class PassFirstBoard(BiddingSystem):
+            def __init__(self):
+                self.seen = []          # the auction objects met so far (kept alive so that ids are not reused)
+                self.inner = WeakBid()
+
+            def bid(self, hand, env):
+                if not any(e is env for e in self.seen):
+                    self.seen.append(env)
+                return Bid.Pass if len(self.seen) == 1 else self.inner.bid(hand, env)
+        return PassFirstBoard(), RandomPlay()
     rng = random.Random(seed)
 
     class RandomLegalBid(BiddingSystem):
@@ -160,9 +172,17 @@ def bundled_session(ctx, rng, kind=None):
     import session_props as SP
     import bridge_env.network_bridge.client as client_mod
     from bridge_env import Player
-    nb = rng.choice([1, 1, 2, 3])
-    sc = session.gen_scenario(rng, nb, fancy=False)          # only the boards (deals, dealers, vulnerability) are used
-    kind = kind or rng.choice(['bundled', 'random_legal', 'random_legal', 'always_pass'])
+    kind = kind or rng.choice(['bundled', 'random_legal', 'random_legal', 'always_pass', 'pass_then_play', 'mixed', 'mixed'])
+    nb = rng.choice([1, 1, 2, 3]) if kind not in ('pass_then_play', 'mixed') else rng.choice([2, 3])
+    if kind == 'mixed':
+        # some seats are the bundled Client (its systems replay the scenario's decisions for that seat), the others are
+        # scripted clients that send the scenario's texts: any letter case, both card notations, alert suffixes — the
+        # bundled clients have to follow THOSE relays
+        sc = session.gen_scenario(rng, nb, fancy=True, kinds=[rng.choice([None, None, 'passout', 'short']) for _ in range(nb)])
+        bundled_seats = set(rng.sample(SEATS, rng.choice([1, 2, 3])))
+    else:
+        sc = session.gen_scenario(rng, nb, fancy=False)      # only the boards (deals, dealers, vulnerability) are used
+        bundled_seats = set(SEATS)
     ctx.count('systems_' + kind)
     seeds = [rng.randrange(1 << 30) for _ in range(4)]
     gseed = rng.randrange(1 << 30)
@@ -180,9 +200,40 @@ def bundled_session(ctx, rng, kind=None):
             records[self.player.name]['contracts'].append(c)
             return c
 
+    def scripted_systems(p):
+        from bridge_env import Bid, Card
+        from bridge_env.network_bridge.bidding_system import BiddingSystem
+        from bridge_env.network_bridge.playing_system import PlayingSystem
+        me = SEATS.index(p)
+        calls, cards = [], []
+        for b in sc['boards']:
+            d = SEATS.index(b['dealer'])
+            calls += [c for j, (c, _t) in enumerate(b['calls']) if (d + j) % 4 == me]
+            con = session.contract_of(d, [c for c, _ in b['calls']])
+            if con is not None:
+                decl = con[2]
+                dummy = (decl + 2) % 4
+                for (c, _t, who) in b['plays']:
+                    w = SEATS.index(who)
+                    if (decl if w == dummy else w) == me:
+                        cards.append(c)
+        calls, cards = iter(calls), iter(cards)
+
+        class SB(BiddingSystem):
+            def bid(self, hand, env):
+                return Bid.int_to_bid(next(calls))
+
+        class SP(PlayingSystem):
+            def play(self, hand, env):
+                return Card.int_to_card(next(cards))
+        return SB(), SP()
+
     def factory(p, scenario, addr, out):
+        if p not in bundled_seats:
+            return lambda: session.scripted_client(p, scenario, addr, out)
+
         def fn():
-            bs, ps = make_systems(kind, seeds[SEATS.index(p)])
+            bs, ps = scripted_systems(p) if kind == 'mixed' else make_systems(kind, seeds[SEATS.index(p)])
             team = scenario['teams']['NS' if p in 'NS' else 'EW']
             try:
                 with RecClient(Player[p], team, bs, ps, addr[0], addr[1]) as cl:
@@ -227,7 +278,7 @@ def bundled_session(ctx, rng, kind=None):
     if len(logs) != nb:
         fail('boards-played', {'logged': len(logs), 'configured': nb})
         return fails
-    for p in SEATS:
+    for p in sorted(bundled_seats):
         cons, envs = records[p]['contracts'], records[p]['envs']
         if len(cons) != nb:
             fail('client-auction-count', {'seat': p, 'got': len(cons)})
@@ -270,7 +321,7 @@ def bundled_session(ctx, rng, kind=None):
     by_client = {c[0]: c for c in r.conns}
     toks = SC.thread_tokens(r, r.qmap)
     ops, seats = [], []
-    for p in SEATS:
+    for p in sorted(bundled_seats):
         conn = by_client.get(f'client-{p}')
         if conn is None:
             continue
@@ -318,8 +369,9 @@ def extra_checks(ctx):
             fails.append(f)
             if len(fails) > 5:
                 return fails
-    for i in range(4 if ctx.quick else 40):
-        fails += bundled_session(ctx, rng, kind=['always_pass', 'bundled', 'random_legal', None][i] if i < 4 and ctx.shard == 0 else None)
+    for i in range(6 if ctx.quick else 40):
+        fails += bundled_session(ctx, rng, kind=(['always_pass', 'bundled', 'random_legal', 'pass_then_play', 'mixed', 'mixed'][i] if i < 6 and ctx.shard == 0 else
+                                            (['pass_then_play', 'mixed'][i] if i < 2 else None)))
         if len(fails) > 8:
             break
     if ctx.shard == 0:
